@@ -91,6 +91,11 @@ def run(ctx) -> None:
     ctx.rule("R2", "every handler that can catch NoPatternMatch/OSError on the update path exits non-zero or re-raises")
     ctx.rule("R3", "no VCS mutation / hook is reachable in _update after a caught rewrite failure")
     ctx.rule("R4", "the diff (dry) path raises NoPatternMatch only where the write path does")
+    ctx.rule("R5", "a pattern without a match always fails its file: rewrite_lines returns normally only when every pattern was found")
+
+    from checks.c03 import all_patterns_found_rule
+    for eng in ENGINES:
+        all_patterns_found_rule(ctx, eng, "R5")
 
     # ---------------------------------------------------------------- R1
     seen: T.Set[str] = set()
